@@ -21,10 +21,13 @@ def root(prog):
 
 def _replay(item):
     prog, exp_w, ty = item
-    text = celx.render_ast(prog)
-    if len(text) % 2:      # the suffix of a uint literal may be written u or U
-        import re
-        text = re.sub(r"(?<![\w.\"'])(\d+)u\b", r"\1U", text)
+    # integer literals may be decimal or hexadecimal, the uint suffix u or U: the spelling is no part of the type
+    plain = celx.render_ast(prog)
+    celx.INT_HEX, celx.UINT_SUFFIX = len(plain) % 3 == 0, ("U" if len(plain) % 2 else "u")
+    try:
+        text = celx.render_ast(prog)
+    finally:
+        celx.INT_HEX, celx.UINT_SUFFIX = False, "u"
     exp = celx.dec(exp_w)
     bad, n = [], 0
     for r in ("I", "C"):
